@@ -23,6 +23,7 @@ RULE = (
     " A processor that never raises but reorders / empties the lists in the events it is handed (multi-target decisions, uncached and replayed from a cache): outcome and invocations as without processors."
     " Two processors failing on the same event with healthy recorders before, between and behind them (layouts FFH, HFHFH, FHFH). Multi-target gates whose decision names END next to real targets."
     ' Also top-level runner.map over 0-3 items (empty maps included) with a processor failing on every event, on one event or at shutdown, next to a healthy one, both registration orders.'
+    ' Failing observers also raise an exception whose __str__ fails (on events and at shutdown).'
 )
 ASSUMPTIONS = ["processors raise Exception subclasses (the dispatcher's contract); BaseException is out of scope"]
 DECIDING = ["fault_runs", "streams_compared"]
@@ -40,7 +41,13 @@ def make_faulty():
 
     # the failing observer raises exceptions of several ordinary classes in turn, and is an UNHASHABLE object in a
     # third of the cases (a processor written as a dataclass, or defining __eq__ only)
-    EXCS = [ObserverBoom, ObserverTimeout, TimeoutError, OSError, KeyError, LookupError, AssertionError, ObserverBoom]
+    class ObserverNoStr(Exception):
+        """An error whose own __str__ fails (a client error whose __str__ returns a status code)."""
+
+        def __str__(self):
+            return 503  # type: ignore[return-value]
+
+    EXCS = [ObserverBoom, ObserverTimeout, ObserverNoStr, TimeoutError, OSError, KeyError, ObserverNoStr, LookupError, AssertionError, ObserverBoom]
 
     class Faulty(EventProcessor):
         _made = [0]
